@@ -316,9 +316,10 @@ def install(eng):
     def py_sum(v, start=0):
         if hasattr(v, "pyvc_sum"):
             return v.pyvc_sum()
+        import ast as _ast
         acc = start
         for x in eng.iterate(v):
-            acc = acc + x
+            acc = eng.binop(_ast.Add, acc, x)  # python semantics of + (optional / enum values fork, None raises TypeError)
         return acc
 
     def py_sorted(v, key=None, reverse=False):
